@@ -243,8 +243,45 @@ func renderExpr(b *strings.Builder, e *Node) {
 		}
 		b.WriteString("]")
 	case "cat":
+		// adjacent string literals must not fuse ('a''b' is one string, ab one bareword) and a
+		// bareword after a variable would extend its name: alternate the quoting style
+		prev := ""
 		for _, x := range e.Es {
-			renderExpr(b, x)
+			if x.T != "str" {
+				renderExpr(b, x)
+				prev = x.T
+				continue
+			}
+			switch prev {
+			case "":
+				q := QuoteBytes(x.Str)
+				b.WriteString(q)
+				if strings.HasPrefix(q, `"`) {
+					prev = "dq"
+				} else {
+					prev = "sq"
+				}
+			case "dq":
+				q, _ := parse.QuoteAs(string(x.Str), parse.SingleQuoted)
+				b.WriteString(q)
+				if strings.HasPrefix(q, `"`) {
+					prev = "dq" // unprintable content forces double quotes: "a""b" does not fuse
+				} else {
+					prev = "sq"
+				}
+			case "sq":
+				q, _ := parse.QuoteAs(string(x.Str), parse.DoubleQuoted)
+				b.WriteString(q)
+				prev = "dq"
+			default:
+				q, _ := parse.QuoteAs(string(x.Str), parse.SingleQuoted)
+				b.WriteString(q)
+				if strings.HasPrefix(q, `"`) {
+					prev = "dq"
+				} else {
+					prev = "sq"
+				}
+			}
 		}
 	case "brace":
 		b.WriteString("{")
